@@ -567,6 +567,50 @@ func (e *Engine) fmtArg(verb byte, a Value, g *Term, pos token.Pos) StringV {
 		return constStr("<?>")
 	}
 	al := iv.alts[0]
+	// fmt.Stringer / error: %s and %v print what String() / Error() return
+	if verb == 's' || verb == 'v' {
+		ms := e.prog.MethodSets.MethodSet(al.typ)
+		for _, mname := range []string{"Error", "String"} {
+			for i := 0; i < ms.Len(); i++ {
+				sel := ms.At(i)
+				if sel.Obj().Name() != mname {
+					continue
+				}
+				sig := sel.Type().(*types.Signature)
+				if sig.Params().Len() != 0 || sig.Results().Len() != 1 || !isString(sig.Results().At(0).Type()) {
+					continue
+				}
+				fn := e.prog.MethodValue(sel)
+				if fn == nil {
+					continue
+				}
+				var res Value
+				ok := func() (ok bool) {
+					defer func() {
+						if r := recover(); r != nil {
+							if _, isAbort := r.(abortErr); isAbort {
+								ok = false
+								return
+							}
+							panic(r)
+						}
+					}()
+					r, rg := e.callFn(fn, []Value{al.val}, nil, g, pos)
+					if rg == False || r == nil {
+						return false
+					}
+					res = r
+					return true
+				}()
+				if ok {
+					if sv, isStr := res.(StringV); isStr {
+						return sv
+					}
+				}
+				return constStr("<?>")
+			}
+		}
+	}
 	switch v := al.val.(type) {
 	case StringV:
 		switch verb {
@@ -576,6 +620,9 @@ func (e *Engine) fmtArg(verb byte, a Value, g *Term, pos token.Pos) StringV {
 			return strConcat(strConcat(constStr("\""), v), constStr("\""))
 		}
 	case *Term:
+		if b, ok := al.typ.Underlying().(*types.Basic); ok && b.Info()&types.IsBoolean != 0 && (verb == 't' || verb == 'v') {
+			return iteVal(v, constStr("true"), constStr("false")).(StringV)
+		}
 		if b, ok := al.typ.Underlying().(*types.Basic); ok && b.Info()&types.IsInteger != 0 && (verb == 'd' || verb == 'v') {
 			if _, named := al.typ.(*types.Named); named && verb == 'v' {
 				break // may have a String method
